@@ -40,16 +40,19 @@ ENV.update(GOFLAGS="-mod=mod", GOPROXY="off", GOSUMDB="off", GOTOOLCHAIN="local"
 
 # per property: (level, needs race binary too, quick count per shard, quick budget s, thorough budget s)
 PROPS = {
-    "C05": dict(level="exploration", race=False, quick_count=4000, quick_budget=40, thorough_budget=600),
+    "C05": dict(level="exploration", race=False, quick_count=8000, quick_budget=40, thorough_budget=600),
     "C06": dict(level="exploration", race=False, quick_count=40000, quick_budget=40, thorough_budget=600),
-    "C07": dict(level="fault_enumeration", race=False, quick_count=300, quick_budget=40, thorough_budget=600),
-    "C08": dict(level="exploration", race=False, quick_count=4000, quick_budget=40, thorough_budget=600),
-    "C09": dict(level="exploration", race=False, quick_count=4000, quick_budget=40, thorough_budget=600),
-    "C10": dict(level="fault_enumeration", race=True, quick_count=300, quick_budget=40, thorough_budget=600),
+    "C07": dict(level="fault_enumeration", race=False, quick_count=450, quick_budget=40, thorough_budget=600),
+    "C08": dict(level="exploration", race=False, quick_count=12000, quick_budget=40, thorough_budget=600),
+    "C09": dict(level="exploration", race=False, quick_count=6000, quick_budget=40, thorough_budget=600),
+    "C10": dict(level="fault_enumeration", race=True, quick_count=450, quick_budget=40, thorough_budget=600),
     "C12": dict(level="exploration", race=False, quick_count=8000, quick_budget=40, thorough_budget=600),
-    "C13": dict(level="fault_enumeration", race=True, quick_count=60, quick_budget=40, thorough_budget=600),
-    "C18": dict(level="exploration", race=False, quick_count=1500, quick_budget=40, thorough_budget=600),
+    "C13": dict(level="fault_enumeration", race=True, quick_count=200, quick_budget=40, thorough_budget=600),
+    "C18": dict(level="exploration", race=False, quick_count=5000, quick_budget=40, thorough_budget=600),
 }
+
+# oracles of the labelled side-cars (free-running goroutines: runtime monitoring, not schedule-replayable)
+NOT_OWNED = {"reuse-error-value", "error-value-free-running", "isolation-free-running", "race-detector"}
 
 RULES = {}   # filled from rules.json (text per property: how cases are generated, what is non-trivial)
 COMPONENTS = {
@@ -298,6 +301,12 @@ def _check(prop, tier, cfg, seed, t0, ev_path, tmpdir):
                 unconfirmed.append((v, "race detector did not report again on a second run of the same stress configuration"))
             continue
         rr, so = replay_once(b, prop, v["replay"], tmpdir)
+        tries = 1
+        while not (rr is not None and rr.get("reproduced")) and v["oracle"] in NOT_OWNED and tries < 6:
+            # scenarios whose goroutine schedule the simulator does not own (labelled side-cars):
+            # the replay file is the stress scenario; it is re-executed a few times
+            rr, so = replay_once(b, prop, v["replay"], tmpdir)
+            tries += 1
         if rr is not None and rr.get("reproduced"):
             confirmed.append(v)
         else:
@@ -407,6 +416,10 @@ def replay(path):
         return 0
     try:
         rr, so = replay_once(binary, prop, os.path.abspath(path), tmpdir)
+        tries = 1
+        while rr is not None and not rr.get("reproduced") and rep.get("oracle") in NOT_OWNED and tries < 6:
+            rr, so = replay_once(binary, prop, os.path.abspath(path), tmpdir)
+            tries += 1
     finally:
         shutil.rmtree(tmpdir, ignore_errors=True)
     if rr is None:
